@@ -130,7 +130,44 @@ func init() {
 	})
 }
 
+// genC15Outage: the clause "the M3 reporter keeps emitting later batches". The
+// real reporter on the real transport; a run of consecutive datagrams fails (an
+// outage) while a producer reports several packets' worth of bucket samples;
+// the network works again afterwards and more is reported.
+func genC15Outage(g *Gen, tier string) *Program {
+	p := &Program{Prop: "C15"}
+	genM3(g, p, m3GenOpts{nameLen: []int{3, 8}, maxTags: 3, tasks: [2]int{1, 2}, reports: [2]int{2, 6}})
+	c := &p.Cfg
+	c.M3.Dests = 1
+	c.M3.MaxQueue = pick(g, 4, 100, 4096)
+	c.M3.MaxPacket = pick(g, int32(8192), int32(16384), int32(32768), int32(32768), int32(60000))
+	first := g.Range(1, 3)
+	for k := g.Range(1, 4); k > 0; k-- {
+		c.Faults.SendFail = append(c.Faults.SendFail, first)
+		first++
+	}
+	p.Prelude = append(p.Prelude, Op{K: "m3ah", M: 1000, Name: "outage_histogram", Tags: map[string]string{"a": "1"}, B: &BucketSpec{Bits: []uint64{f64bits(1), f64bits(1e15)}}},
+		Op{K: "m3bucket", S: 1000, M: 1001, F: f64bits(1e15)},
+		Op{K: "m3ac", M: 1002, Name: "after_outage"})
+	var ops []Op
+	packets := g.Range(len(c.Faults.SendFail)+2, len(c.Faults.SendFail)+4)
+	n := packets * int(c.M3.MaxPacket) / 70
+	for i := 0; i < n; i++ {
+		ops = append(ops, Op{K: "m3samples", M: 1001, I: int64(7000000 + i)})
+	}
+	ops = append(ops, Op{K: "m3flush"}, Op{K: "sleep", I: 2e9})
+	for i := 0; i < 3; i++ {
+		ops = append(ops, Op{K: "m3count", M: 1002, I: int64(880000 + i)}, Op{K: "m3flush"}, Op{K: "sleep", I: 1e9})
+	}
+	p.Tasks = append(p.Tasks, ops)
+	c.MaxSteps = 400000
+	return p
+}
+
 func genC15(g *Gen, tier string) *Program {
+	if g.Bool(map[string]int{"quick": 2, "thorough": 4}[tier]) {
+		return genC15Outage(g, tier)
+	}
 	p := &Program{Prop: "C15"}
 	c := &p.Cfg
 	c.Stack = "transport"
@@ -192,6 +229,9 @@ func genC15(g *Gen, tier string) *Program {
 
 // checkC15 runs a byte-buffer model of the transport next to the recorded calls.
 func checkC15(env *Env) []Violation {
+	if env.Prog.Cfg.Stack == "m3direct" {
+		return checkC15Outage(env)
+	}
 	ops := env.OpsBeforeTeardown()
 	var out []Violation
 	out = append(out, opPanics(ops, nil)...)
@@ -361,6 +401,35 @@ func checkC15(env *Env) []Violation {
 	}
 	_ = strings.Contains
 	return out
+}
+
+// checkC15Outage: whatever is reported after the last failed send is emitted
+// ("... and the M3 reporter keeps emitting later batches"). What was in or
+// around the failed datagrams is C13's business, not looked at here.
+func checkC15Outage(env *Env) []Violation {
+	a := analyseM3(env, true)
+	a.match(env)
+	lastFail := -1
+	for _, d := range env.Net.Log {
+		if d.Err != "" && d.Seq > lastFail {
+			lastFail = d.Seq
+		}
+	}
+	if lastFail < 0 {
+		return a.out
+	}
+	env.Probes.inc("faults_in_sequence")
+	for _, e := range a.exps {
+		if e.obl != required || e.rec.Inv <= lastFail {
+			continue
+		}
+		env.Probes.inc("messages_after_fault")
+		if e.found == 0 {
+			a.out = append(a.out, vf("later-batch-not-emitted", "%s %q value %d was reported after the last failed send (seq %d > %d) and before Close, and was never emitted: the reporter stopped emitting after the outage", e.kind, e.h.name, e.i, e.rec.Inv, lastFail))
+			break
+		}
+	}
+	return a.out
 }
 
 func payloadOf(op *Op) []byte {
